@@ -52,6 +52,7 @@ type vmCompilerRoles struct {
 	fns        []*vmFn
 	byObj      map[*types.Func]*vmFn
 	insert     *types.Func
+	insertArg  int        // index of the instruction among the insert role's arguments
 	instrField *types.Var // Function.Instructions
 	opType     types.Type
 	emitters   map[*types.Func]bool // functions that (transitively) reach insert
@@ -94,21 +95,95 @@ func vmCompRoles(c *Ctx) *vmCompilerRoles {
 			}
 			return true
 		})
-		// the insert role: a *Compiler method appending one of its parameters to Function.Instructions
-		if fn.fd.Recv != nil && recvTypeName(fn.fd.Recv.List[0].Type) == "Compiler" {
-			for _, s := range fn.fd.Body.List {
-				as, ok := s.(*ast.AssignStmt)
-				if !ok || len(as.Lhs) != 1 || len(as.Rhs) != 1 {
-					continue
-				}
-				if d, ok := vmSliceWrite(fn.info, as.Lhs[0], as.Rhs[0], r.instrField); ok && d == 1 {
-					if r.insert != nil && r.insert != obj {
-						fatalf("anchor ambiguous: two *Compiler methods append to Function.Instructions")
+	}
+	// the insert role: a *Compiler method that appends one of its parameters to Function.Instructions,
+	// itself or by forwarding it (straight-line) to such a method (`insert` → `appendTo(fn, instr, span)`,
+	// `add` → `insert`). Of a forwarding chain, the role is the method the lowering code calls (the one
+	// with the most call sites); the others are its implementation or wrappers of it.
+	type cand struct {
+		fn  *vmFn
+		obj *types.Func
+		arg int
+	}
+	cands := map[*types.Func]*cand{}
+	paramIndex := func(fn *vmFn, e ast.Expr) int {
+		o := vmObjOf(fn.info, ast.Unparen(e))
+		for i, p := range vmParamObjs(fn) {
+			if p != nil && p == o {
+				return i
+			}
+		}
+		return -1
+	}
+	isCompilerMethod := func(fn *vmFn) bool {
+		return fn.fd.Recv != nil && recvTypeName(fn.fd.Recv.List[0].Type) == "Compiler"
+	}
+	for _, fn := range r.fns {
+		obj, _ := fn.info.Defs[fn.fd.Name].(*types.Func)
+		if obj == nil || !isCompilerMethod(fn) {
+			continue
+		}
+		for _, s := range fn.fd.Body.List {
+			as, ok := s.(*ast.AssignStmt)
+			if !ok || len(as.Lhs) != len(as.Rhs) {
+				continue
+			}
+			// also as one element of a tuple assignment (`fn.Instructions, fn.SourceMap = append(…), append(…)`)
+			for k := range as.Lhs {
+				if d, ok := vmSliceWrite(fn.info, as.Lhs[k], as.Rhs[k], r.instrField); ok && d == 1 {
+					call := ast.Unparen(as.Rhs[k]).(*ast.CallExpr)
+					if i := paramIndex(fn, call.Args[1]); i >= 0 {
+						cands[obj] = &cand{fn, obj, i}
 					}
-					r.insert = obj
 				}
 			}
 		}
+	}
+	for changed := true; changed; {
+		changed = false
+		for _, fn := range r.fns {
+			obj, _ := fn.info.Defs[fn.fd.Name].(*types.Func)
+			if obj == nil || cands[obj] != nil || !isCompilerMethod(fn) || !vmStraightLine(fn) {
+				continue
+			}
+			ast.Inspect(fn.fd.Body, func(n ast.Node) bool {
+				if call, ok := n.(*ast.CallExpr); ok && cands[obj] == nil {
+					if g := cands[vmOrigin(CalleeOf(fn.info, call))]; g != nil && g.arg < len(call.Args) {
+						if i := paramIndex(fn, call.Args[g.arg]); i >= 0 {
+							cands[obj] = &cand{fn, obj, i}
+							changed = true
+						}
+					}
+				}
+				return true
+			})
+		}
+	}
+	var best *cand
+	bestN := -1
+	for _, fn := range r.fns {
+		obj, _ := fn.info.Defs[fn.fd.Name].(*types.Func)
+		cd := cands[obj]
+		if cd == nil {
+			continue
+		}
+		sites := 0
+		for _, g := range r.fns {
+			ast.Inspect(g.fd.Body, func(m ast.Node) bool {
+				if call, ok := m.(*ast.CallExpr); ok && vmOrigin(CalleeOf(g.info, call)) == obj {
+					sites++
+				}
+				return true
+			})
+		}
+		if sites > bestN {
+			best, bestN = cd, sites
+		} else if sites == bestN {
+			fatalf("anchor ambiguous: the *Compiler methods %s and %s both append their parameter to Function.Instructions and are called equally often", best.fn.name, cd.fn.name)
+		}
+	}
+	if best != nil {
+		r.insert, r.insertArg = best.obj, best.arg
 	}
 	if r.insert == nil {
 		fatalf("anchor unresolved: no *Compiler method appends to Function.Instructions")
@@ -203,10 +278,17 @@ func (r *vmCompilerRoles) instrOf(fn *vmFn, ev []vmEv, at int, e ast.Expr) (op *
 	}
 	call, isCall := e.(*ast.CallExpr)
 	if !isCall {
+		// an instruction written as a composite literal
+		if op, opText, args, ok := r.construct(info, e, nil, 0); ok {
+			return op, opText, nil, args, true
+		}
 		return nil, exprStr(e), nil, nil, false
 	}
 	ctor = CalleeOf(info, call)
 	if ctor == nil {
+		if op, opText, args, ok := r.construct(info, e, nil, 0); ok {
+			return op, opText, nil, args, true
+		}
 		return nil, exprStr(e), nil, nil, false
 	}
 	sig := ctor.Type().(*types.Signature)
@@ -249,7 +331,117 @@ func (r *vmCompilerRoles) instrOf(fn *vmFn, ev []vmEv, at int, e ast.Expr) (op *
 			return op, op.Name(), ctor, call.Args, true
 		}
 	}
+	// a wrapper constructor (`func jumpTo(l string) Instruction { return newJump(Opcode_Jump, l) }`):
+	// follow the construction down to the literal, arguments substituted for parameters
+	if op, opText, cargs, ok := r.construct(info, e, nil, 0); ok && op != nil {
+		return op, opText, ctor, cargs, true
+	}
 	return nil, exprStr(e), ctor, call.Args, false
+}
+
+// construct resolves an instruction-valued expression to its construction: a
+// composite literal of an instruction struct (keyed in any order or
+// positional; the element of the opcode type is the opcode, the other
+// elements are the operands in field order, an array operand flattened), or a
+// call of a function whose body is `return <construction>` with the call's
+// arguments substituted for its parameters.
+func (r *vmCompilerRoles) construct(info *types.Info, e ast.Expr, env map[types.Object]ast.Expr, depth int) (op *types.Const, opText string, args []ast.Expr, ok bool) {
+	if depth > 4 {
+		return nil, "", nil, false
+	}
+	subst := func(x ast.Expr) ast.Expr {
+		for i := 0; i < 4; i++ {
+			id, isId := ast.Unparen(x).(*ast.Ident)
+			if !isId || env == nil {
+				break
+			}
+			m, has := env[vmObjOf(info, id)]
+			if !has {
+				break
+			}
+			x = m
+		}
+		return x
+	}
+	e = ast.Unparen(subst(e))
+	switch x := e.(type) {
+	case *ast.CompositeLit:
+		t := info.TypeOf(x)
+		if t == nil {
+			return nil, "", nil, false
+		}
+		st, isStruct := t.Underlying().(*types.Struct)
+		if !isStruct {
+			return nil, "", nil, false
+		}
+		vals := make([]ast.Expr, st.NumFields())
+		for i, el := range x.Elts {
+			if kv, isKV := el.(*ast.KeyValueExpr); isKV {
+				key, _ := kv.Key.(*ast.Ident)
+				for f := 0; f < st.NumFields(); f++ {
+					if key != nil && st.Field(f).Name() == key.Name {
+						vals[f] = kv.Value
+					}
+				}
+			} else if i < len(vals) {
+				vals[i] = el
+			}
+		}
+		found := false
+		for f := 0; f < st.NumFields(); f++ {
+			v := vals[f]
+			if types.Identical(st.Field(f).Type(), r.opType) {
+				found = true
+				if v != nil {
+					v = subst(v)
+					opText = exprStr(v)
+					op = ConstOf(info, ast.Unparen(v))
+				}
+				continue
+			}
+			if v == nil {
+				continue
+			}
+			v = subst(v)
+			if arr, isArr := ast.Unparen(v).(*ast.CompositeLit); isArr {
+				if _, isA := info.TypeOf(arr).Underlying().(*types.Array); isA {
+					for _, el := range arr.Elts {
+						if kv, isKV := el.(*ast.KeyValueExpr); isKV {
+							el = kv.Value
+						}
+						args = append(args, subst(el))
+					}
+					continue
+				}
+			}
+			args = append(args, v)
+		}
+		return op, opText, args, found
+	case *ast.CallExpr:
+		if tv, isT := info.Types[x.Fun]; isT && tv.IsType() && len(x.Args) == 1 {
+			return r.construct(info, x.Args[0], env, depth+1)
+		}
+		g := vmDeclIndex(r.c).of(CalleeOf(info, x))
+		if g == nil {
+			return nil, "", nil, false
+		}
+		res := vmExprBodied(g)
+		if res == nil {
+			return nil, "", nil, false
+		}
+		params := vmParamObjs(g)
+		if len(params) != len(x.Args) || x.Ellipsis.IsValid() {
+			return nil, "", nil, false
+		}
+		env2 := map[types.Object]ast.Expr{}
+		for i, p := range params {
+			if p != nil {
+				env2[p] = subst(x.Args[i])
+			}
+		}
+		return r.construct(info, res, env2, depth+1)
+	}
+	return nil, "", nil, false
 }
 
 // trace extracts the emission trace of a path.
@@ -482,6 +674,10 @@ func vmCompUnits(c *Ctx) *vmCompWalk {
 	}
 	r := vmCompRoles(c)
 	w := &vmCompWalk{}
+	var valueT types.Type
+	if vo := c.Pkg("homescript/runtime/value").Types.Scope().Lookup("Value"); vo != nil {
+		valueT = vo.Type()
+	}
 	for _, fn := range r.fns {
 		obj, _ := fn.info.Defs[fn.fd.Name].(*types.Func)
 		if obj == nil || !r.emitters[obj] || obj == r.insert || r.emitWrapper(fn) {
@@ -530,6 +726,10 @@ func vmCompUnits(c *Ctx) *vmCompWalk {
 					if n := vmNamed(t); n != nil && n.Obj().Name() == "Instruction" {
 						return true
 					}
+					// a constant operand prepared in a local (`literal = *value.NewValueInt(…)`)
+					if valueT != nil && types.Identical(t, valueT) {
+						return true
+					}
 					if vmFieldOf(info, vmBaseOfIndex(l)) == r.instrField {
 						return true
 					}
@@ -555,6 +755,10 @@ func vmCompUnits(c *Ctx) *vmCompWalk {
 				for _, e := range p.ev {
 					if e.K == evCase && tops[e.Pos] {
 						u.pos = vmClausePos(e)
+						break
+					}
+					if e.K == evTypeCase && e.Sw != nil && tops[e.Sw.Pos()] {
+						u.pos = e.Pos
 						break
 					}
 				}
